@@ -69,7 +69,10 @@ def rust_type(d, params=None, lt="'static"):
         return params["types"][d["i"] - 1]
     if k in ("struct", "enum"):
         args = [r(tp["arg"]) for tp in d["tps"]] + [str(c["val"]) for c in d["consts"]]
-        return d["name"] + ("<" + ", ".join(args) + ">" if args else "")
+        pre = (d.get("mod") + "::") if d.get("mod") else ""
+        if not pre and params and params.get("inmod"):
+            pre = "super::"     # inside a mutant's module a core definition is shadowed by its namesake mutant
+        return pre + d["name"] + ("<" + ", ".join(args) + ">" if args else "")
     # epsilon-copy shapes
     if k == "bslice":
         return f"&{lt} [{r(d['elem'])}]"
@@ -120,9 +123,10 @@ def key_of(d):
     if k == "range":
         return f"{d['rk']}<{key_of(d['elem'])}>"
     if k in ("struct", "enum"):
+        pre = (d.get("mod") + "::") if d.get("mod") else ""
         if not d["tps"] and not d["consts"]:
-            return d["name"]
-        return d["name"] + "<" + "".join(key_of(tp["arg"]) + "," for tp in d["tps"]) + \
+            return pre + d["name"]
+        return pre + d["name"] + "<" + "".join(key_of(tp["arg"]) + "," for tp in d["tps"]) + \
             "".join(str(c["val"]) + "," for c in d["consts"]) + ">"
     raise ValueError(k)
 
@@ -136,7 +140,7 @@ def gen_def(d, out):
     name = d["name"]
     tparams = d["tparams"]
     cparams = d["cparams"]
-    P = {"types": tparams, "consts": [c["name"] for c in cparams]}
+    P = {"types": tparams, "consts": [c["name"] for c in cparams], "inmod": bool(d.get("mod"))}
     zc = d["zc"]
     tb = d.get("tbounds") or [""] * len(tparams)
     generics_decl = ", ".join([t + (": " + b if b else "") for t, b in zip(tparams, tb)] +
@@ -338,8 +342,19 @@ def main():
     hdr = ["// @generated by gen/gen_universe.py from spec/MC_Export.tla -- do not edit",
            "#![allow(clippy::all, non_snake_case, unused_variables, dead_code, unused_imports)]"]
     out = hdr + ["use crate::model::*;", "use serde_json::{json, Value};", ""]
+    mods = {}
     for d in defs:
+        mods.setdefault(d.get("mod", ""), []).append(d)
+    for d in mods.pop("", []):
         gen_def(d, out)
+    for m in sorted(mods):
+        out.append(f"pub mod {m} {{")
+        out.append("    use super::*;")
+        body = []
+        for d in mods[m]:
+            gen_def(d, body)
+        out += ["    " + l for b in body for l in b.split("\n")]
+        out.append("}")
     write_if_changed(f"{hdir}/src/universe.rs", "\n".join(out) + "\n")
     meta = {}
     shards = [[] for _ in range(NSHARDS)]
